@@ -133,7 +133,7 @@ def rule_path_contains(ctx, rid):
         ctx.violation(rid, "Path::contains/true-after-hit", "Path::contains can answer true without a segment rectangle having contained the point", site)
 
     # (b) the rectangle of a segment, evaluated: points A = points[k], B = points[k+1], half = width / 2
-    w = Walker(f, max_visits=2, follow_errors=True, max_paths=20000)
+    w = Walker(f, max_visits=2, follow_errors=True, max_paths=20000, max_depth=30)
     hits = []
 
     def on_stmt(path, bb, st, val):
